@@ -5723,8 +5723,8 @@ evdns_getaddrinfo_fromhosts(struct evdns_base *base,
 		sockaddr_setport(ai_new->ai_addr, port);
 		ai = evutil_addrinfo_append_(ai, ai_new);
 	}
-	EVDNS_UNLOCK(base);
 out:
+	EVDNS_UNLOCK(base);
 	if (n_found) {
 		if (!ai) {
 			return EVUTIL_EAI_ADDRFAMILY;
